@@ -283,6 +283,13 @@ func (x *Exec) loopEffects(fr *Frame, h *ssa.BasicBlock) (allocs map[*ssa.Alloc]
 					if callee, ok := in.Call.Value.(*ssa.Function); ok && x.calleeEffectFree(callee) {
 						continue
 					}
+					if x.ctr != nil && fr.isEntry {
+						if u, ok := in.Call.Value.(*ssa.UnOp); ok {
+							if a, ok := u.X.(*ssa.Alloc); ok && contains(x.ctr.PureParams, a.Comment) {
+								continue
+							}
+						}
+					}
 				}
 				calls = true
 			case *ssa.Defer, *ssa.Go:
@@ -368,6 +375,17 @@ func (x *Exec) loopEntry(fr *Frame, st *State, h *ssa.BasicBlock, ord int) bool 
 	for k := range st.ghost {
 		if strings.HasPrefix(k, "sb:") {
 			st.ghost[k] = x.d.Fresh("loop_sb", "String")
+		}
+	}
+	// ghost visited sets of map iterations advanced in the loop
+	for b := range fr.loops.body[h] {
+		for _, in := range b.Instrs {
+			if nx, ok := in.(*ssa.Next); ok {
+				id := fmt.Sprintf("%p", nx.Iter)
+				if cur := st.ghost["vis:"+id]; !cur.IsZero() {
+					st.ghost["vis:"+id] = x.d.Fresh("loop_vis", cur.Sort)
+				}
+			}
 		}
 	}
 	if calls {
